@@ -140,7 +140,22 @@ def lockstep : Nat → List (Int × Int) → St → St → String
     | .error e1, .error e2 => if e1 = e2 then "same" else s!"{k} {op} {maxAbs b}"
     | _, _ => s!"{k} {op} {maxAbs b}"
 
+/-- `sk.norm x y`: math.rs `normalize14`; `ft.normlen x y`: ftcalc.c `FT_Vector_NormLen` (the vector it
+leaves; operands may exceed 32 bits). -/
+def handleNorm (cmd : String) (xs : List Int) : Option String :=
+  match cmd, xs with
+  | "sk.norm", [x, y] => some (match HintVec.normalize14 x y with
+      | some v => s!"{v.x} {v.y}"
+      | none => "trap")
+  | "ft.normlen", [x, y] => some (match FtVec.normLen x y with
+      | some (a, b) => s!"{a} {b}"
+      | none => "fuel")
+  | _, _ => none
+
 def handle (cmd : String) (xs : List Int) : Option String :=
+  match handleNorm cmd xs with
+  | some r => some r
+  | none =>
   match cmd with
   | "rng.run" => (parse xs).map fun j0 =>
       let j := { j0 with st := ftCvt j0.st }
